@@ -11,7 +11,7 @@ class _RL(dict):
 UNIT_RLIMIT = _RL({"div_small": 80, "mul_redc": 80})      # unit -> --rlimit (Verus default is 10; 5x head-room over the measured maximum)
 UNIT_TIMEOUT = {"knuth": 1500, "addmul": 900, "mul_redc": 1200}     # unit -> seconds
 UNIT_EXPECT = {       # unit -> minimum number of verified functions on the unchanged tree (vacuity guard)
-    "core": 31, "add": 29, "kernels": 79, "addmul": 71, "addmul_n": 73, "mul": 51, "divd": 45, "div_small": 235, "knuth": 145, "mul_redc": 124, "basics": 22, "pow": 38, "divw": 54, "modular": 63, "spigot": 44, "gcd": 24, "forward": 57, "invring": 36, "bitlen": 70, "shifts": 131, "recip_table": 2, "gcdext": 67, "gcdw": 36, "bits": 60, "conv": 31, "lehmer": 37, "logs": 27, "forward_shift": 81, "fmt_consts": 5,
+    "core": 31, "add": 29, "kernels": 79, "addmul": 71, "addmul_n": 73, "mul": 51, "divd": 45, "div_small": 235, "knuth": 145, "mul_redc": 124, "basics": 22, "pow": 38, "divw": 54, "modular": 70, "spigot": 44, "gcd": 24, "forward": 57, "invring": 36, "bitlen": 70, "shifts": 131, "recip_table": 2, "gcdext": 67, "gcdw": 36, "bits": 60, "conv": 31, "lehmer": 37, "logs": 27, "forward_shift": 81, "fmt_consts": 5,
 }
 
 COMMON_TRUST = [
@@ -345,17 +345,18 @@ PROPS = {
     ),
     "C10": dict(
         level="proof",
-        level_text="Verus proves reduce_mod, add_mod and pow_mod for every BITS/LIMBS and every modulus (0 for m = 0; pow_mod 0 for m <= 1): canonical residues in [0, m), "
-                   "add_mod without intermediate overflow (carry-out case), pow_mod by the square-and-multiply invariant modulo m; and inv_mod (algorithms::inv_mod and the Uint wrapper): Some(x) with x < m and "
-                   "a*x = 1 (mod m) exactly when m >= 2 and gcd(a, m) = 1, None otherwise - through the Lehmer loop with the Euclidean fallback, implicit-sign cofactor in wrapping arithmetic and the final sign patch",
-        level_note="ASSUMED: mul_mod's contract (= a*b mod m; its body reinterprets [[u64;2];LIMBS] through a raw pointer, outside Verus; the addmul and div kernels it calls are under contract; Kani decides it at 4 bits); "
-                   "the Lehmer matrix contract of lib/lehmer.rs (LehmerMatrix::from / apply: exact map to a later remainder pair, determinant +-1, top row <= bottom row; see C12); operators >=, %=, -=, >>=, /, *, + on Uint (C20)",
-        technique="deductive contracts (Verus, all widths) + Kani at tiny widths for mul_mod and as counterexample source",
+        level_text="Verus proves reduce_mod, add_mod, mul_mod and pow_mod for every BITS/LIMBS and every modulus (0 for m = 0; pow_mod 0 for m <= 1): canonical residues in [0, m), "
+                   "add_mod without intermediate overflow (carry-out case), mul_mod through the full double-width product (proved addmul) and the proved division, pow_mod by the square-and-multiply invariant modulo m; "
+                   "and inv_mod (algorithms::inv_mod and the Uint wrapper): Some(x) with x < m and a*x = 1 (mod m) exactly when m >= 2 and gcd(a, m) = 1, None otherwise - through the Lehmer loop with the Euclidean fallback, "
+                   "implicit-sign cofactor in wrapping arithmetic and the final sign patch",
+        level_note="ASSUMED: one memory-layout fact in mul_mod (normalisation N19: the raw-pointer reinterpretation of `[[u64; 2]; LIMBS]` as a limb slice is replaced by a call whose contract says element 2i+j is store[i][j]); "
+                   "the Lehmer matrix contract of lib/lehmer.rs for operands above 64 bits (see C12); operators >=, %=, -=, >>=, /, *, + on Uint (C20); precondition BITS <= (usize::MAX - 63) / 2 (2*BITS is computed)",
+        technique="deductive contracts (Verus, all widths) + Kani at tiny widths as counterexample source",
         units=["core", "basics", "add", "modular", "gcdext", "gcdw"],
         kani=dict(features=None, quick=hs("c10", None, r"gcd|lcm"), thorough=hs("c10", None, r"gcd|lcm"), bounds="tiny widths (2-8 bits) and reduced add_mod at 64..192 bits, see kani/src/c10.rs"),
         explanation="postconditions over val() with vstd's modular-arithmetic lemma library; inv_mod: ghost cofactor magnitudes T0 <= T1 with T1*a + T0*b = m, a = +-T0*n + ka*m, stored cofactors = signed values mod 2^BITS",
         trusted=COMMON_TRUST,
-        not_decided=["mul_mod body (raw pointer reinterpretation) beyond 4 bits", "LehmerMatrix construction (assumed contract)"],
+        not_decided=["LehmerMatrix construction above 64 bits (assumed contract)"],
     ),
     "C12": dict(
         level="other",
